@@ -97,6 +97,21 @@ theorem C08_after_vars (inline : List Char → Option (List Char)) (style : Styl
   unfold phases rewrite
   cases inline cmd <;> cases a.isEmpty <;> cases style.clientSide <;> simp
 
+/-- **No binding state**: whatever a cursor executed before (and after), the k-th `execute` substitutes exactly
+    the literals of its own values into its own command — an earlier binding of an equal-looking value of another
+    type (`True` before `1.0`, `Decimal('1.1')` before `Decimal('1.10')`) cannot influence it. -/
+theorem C08_no_binding_state (style : Style) (before after : List (List Char × Args)) (c : List Char) (a : Args) :
+    (cursorRun style (before ++ (c, a) :: after))[before.length]? = some (rewrite style c a) := by
+  induction before with
+  | nil => simp [cursorRun]
+  | cons x xs ih => obtain ⟨c', a'⟩ := x; simpa [cursorRun] using ih
+
+/-- values that compare equal in Python but have different types have different literals -/
+theorem C08_typed_literals :
+    (Val.bool true).lit ≠ (Val.num "1.0".toList).lit ∧ (Val.bool false).lit ≠ (Val.num "0.0".toList).lit ∧
+    (Val.str "1.1".toList).lit ≠ (Val.str "1.10".toList).lit ∧ (Val.num "2.5".toList).lit ≠ (Val.str "2.5".toList).lit := by
+  decide
+
 /-- **qmark / numeric**: the command text is handed on unchanged and the values stay values. -/
 theorem C08_qmark_text_unchanged (cmd : List Char) (a : Args) :
     (rewrite .qmark cmd a).1 = .ok cmd := by simp [rewrite, Style.clientSide]
@@ -162,7 +177,7 @@ def C08_Full : Prop :=
   (∀ v : Val, lex v.lit = lex v.specLit) ∧
   (∀ s : List Char, duckLex (duckGen s ++ ['\'']) = some (s, [])) ∧
   (∀ e : QExpr, ∀ n, qmarkAccepts e n = (e.phs == n)) ∧
-  (∀ i : Int, qmarkBindInt i = .exact) ∧
+  (∀ i : Int, inNumber38 i → qmarkBindInt i = .exact) ∧
   (duckDecToDouble 9662473009120293 10).toBits = (966247.3009120293 : Float).toBits
 
 /-- `float('inf')` / `nan` are rendered by `repr` as the bare words `inf` / `nan`: identifiers, not
@@ -177,9 +192,16 @@ theorem finding_C08_nul : duckLex (duckGen [Char.ofNat 0] ++ ['\'']) = none := b
 /-- `ARRAY_SIZE(?)` is executed with two placeholders (known finding C08/qmark-duplicated) -/
 theorem finding_C08_qmark_duplicated : qmarkAccepts (.dup .ph) 1 = false ∧ (QExpr.dup .ph).phs = 1 := by decide
 
-/-- a Python int ≥ 2^64 bound through qmark reaches DuckDB as a DOUBLE (known finding
-    C08/qmark-int-beyond-uint64) -/
-theorem finding_C08_qmark_int_beyond_uint64 : qmarkBindInt (10 ^ 20 + 1) = .double := by decide
+/-- **qmark ints**: every NUMBER(38,0) value bound through qmark reaches DuckDB exactly (after repair `5c8660f`) -/
+theorem C08_qmark_int_exact (i : Int) (h : inNumber38 i) : qmarkBindInt i = .exact := by
+  unfold qmarkBindInt inNumber38 at *
+  split
+  · rfl
+  · simp [h.1, h.2]
+
+/-- regression witness: the pinned code bound a Python int ≥ 2^64 as a DOUBLE (was C08/qmark-int-beyond-uint64) -/
+theorem C08_old_qmark_int_beyond_uint64 :
+    qmarkBindIntOld (10 ^ 20 + 1) = .double ∧ qmarkBindInt (10 ^ 20 + 1) = .exact := by decide
 
 /-- a float written as a decimal literal and read into a FLOAT column by DuckDB (DECIMAL, then a division
     in double arithmetic) is not always the float that was bound (known finding C08/float-literal-inexact):
@@ -190,8 +212,9 @@ theorem finding_C08_float_literal_inexact :
 
 theorem C08_full_false : ¬ C08_Full := by
   intro h
-  have := h.2.2.2.1 (10 ^ 20 + 1)
-  rw [finding_C08_qmark_int_beyond_uint64] at this
-  cases this
+  have := h.2.2.2.2
+  have w := finding_C08_float_literal_inexact
+  rw [w.1, w.2] at this
+  revert this; decide
 
 end Fs.C08
